@@ -192,6 +192,30 @@ CLAIMED = {
             "Trusted: TLC, ASan. Float/double dump columns: geometry only. One known finding (end address 2^64) is listed "
             "in known_findings.json and reported as KNOWN-FINDING.",
             "DESIGN.md 3.9"),
+    "C04": ("TLA+ RFC 8259 reference reader (lexer as a fold, recursive descent over tokens, exact decimal rounding to six "
+            "significant digits) with phosg's documented extensions as a switch (spec/Json): TLC checks totality and "
+            "'extensions never break standard documents' on every text up to length 4-5, and validates each recorded "
+            "(value tree, option set, serialized text, re-parse, re-serialization, copy) tuple",
+            "40 (thorough 1500) value trees built through the API x all 64 SerializeOption sets: the serialized text must be "
+            "read back to the original value by the independent TLA+ reader (extensions on), by JSON::parse in default mode "
+            "with the same int/float kind, and - for the four standard option sets - by the TLA+ reader with extensions off "
+            "and by strict mode; sorted re-serialization must reproduce the text; copies must be deep and equal.",
+            "Trusted: TLC; libc %.5e for the six-digit rendering of doubles; gson's 255 nesting limit in the trace reader is "
+            "avoided by logging deep single-element chains compactly.",
+            "DESIGN.md 3.4"),
+    "C05": ("the same TLA+ reference reader (spec/Json) decides, for every recorded text, whether it is a standard document, "
+            "a standard document with one documented extension, or neither, and what value it denotes; every outcome of the "
+            "six (mode x entry point) combinations of the real parser is validated against that",
+            "300 (thorough 5000) grammar-generated standard documents incl. all number shapes, every escape, whitespace in "
+            "every legal position and nesting 500; extension variants (n/t/f, trailing commas, // comments, hex integers); "
+            "trailing garbage; single-byte edits; every prefix of 12 documents; truncations; random texts; 50 hand-picked "
+            "malformed inputs incl. non-string keys and inputs ending inside a comment marker or escape; all in exact-size "
+            "heap buffers under ASan. Standard documents must be accepted with the reference value in both modes, extensions "
+            "accepted by default and rejected by strict mode, everything else must yield a value, parse_error or out_of_range; "
+            "the reader entry point must stop exactly after the value.",
+            "Trusted: TLC, ASan as out-of-bounds sensor. Documents with duplicate keys, out-of-range numbers or \\u escapes "
+            "above U+00FF have no reference value (totality only).",
+            "DESIGN.md 3.5"),
 }
 
 NOT_YET = "check not built yet in this round (planned: see DESIGN.md section 3)"
